@@ -139,7 +139,39 @@ Alpha_modules == <<
     <<91>>    \* [
   >>
 
-Profiles == <<"terms", "binding", "control", "objects", "operators", "modules">>
+\* pieces of string literals and interpolations (texts are the glued sequences: scanString, inString mode)
+Alpha_strings == <<
+    <<34>>,   \* "
+    <<92,40>>,   \* \(
+    <<40>>,   \* (
+    <<41>>,   \* )
+    <<97>>,   \* a
+    <<49>>,   \* 1
+    <<92,34>>,   \* \"
+    <<92,92>>,   \* \\
+    <<32>>,   \* blank
+    <<35>>,   \* #
+    <<10>>,   \* LF
+    <<43>>,   \* +
+    <<46>>,   \* .
+    <<92,110>>    \* \n
+  >>
+
+\* pieces of comments and line ends (skipComment, backslash continuation, NUL)
+Alpha_comments == <<
+    <<35>>,   \* #
+    <<10>>,   \* LF
+    <<13>>,   \* CR
+    <<92>>,   \* \
+    <<32>>,   \* blank
+    <<49>>,   \* 1
+    <<43>>,   \* +
+    <<0>>,   \* NUL
+    <<97>>,   \* a
+    <<34>>    \* "
+  >>
+
+Profiles == <<"terms", "binding", "control", "objects", "operators", "modules", "strings", "comments">>
 Alphabet(p) ==
   CASE p = "terms" -> Alpha_terms
     [] p = "binding" -> Alpha_binding
@@ -147,6 +179,11 @@ Alphabet(p) ==
     [] p = "objects" -> Alpha_objects
     [] p = "operators" -> Alpha_operators
     [] p = "modules" -> Alpha_modules
+    [] p = "strings" -> Alpha_strings
+    [] p = "comments" -> Alpha_comments
+
+\* alphabets whose elements are pieces of tokens rather than tokens
+PieceProfiles == {"strings", "comments"}
 
 RECURSIVE JoinToks(_, _, _)
 JoinToks(ts, i, sep) ==
